@@ -17,6 +17,7 @@ Definition rop_of (d : db) (o : op) : option rop :=
   match o with
   | OReopen => Some RReopen
   | OKs h name => Some (RW (WKs h name))
+  | ODelKs h => Some (RDelKs h)
   | OPut h k v => omap (fun ks => RW (WWrite (k_id ks) k v VValue VValue)) (handle_ks d h)
   | ODel h k => omap (fun ks => RW (WWrite (k_id ks) k [] VTomb VTomb)) (handle_ks d h)
   | ODelW h k => omap (fun ks => RW (WWrite (k_id ks) k [] VWeak VTomb)) (handle_ks d h)
@@ -38,7 +39,7 @@ Definition rop_of (d : db) (o : op) : option rop :=
 
 Definition plain_op (o : op) : bool :=
   match o with
-  | OReopen | OKs _ _ | OPut _ _ _ | ODel _ _ | ODelW _ _ | OClear _ | OBatch _ | OIngest _ _ | OPersist
+  | OReopen | OKs _ _ | ODelKs _ | OPut _ _ _ | ODel _ _ | ODelW _ _ | OClear _ | OBatch _ | OIngest _ _ | OPersist
   | ORotate _ | OStep | ODrain | OMajor _ | OExists _ | ONames
   | OGet VwNone _ _ | OHas VwNone _ _ | OSize VwNone _ _ | OFirst VwNone _ | OLast VwNone _ | OLen VwNone _ | OEmpty VwNone _
   | OScan VwNone _ _ _ | ODump => true
@@ -92,8 +93,10 @@ Proof. induction f as [|f IH]; intros d n; cbn [do_drain]; [reflexivity|]. destr
 
 Lemma rstep_mode d r : d_mode (rstep d r) = d_mode d.
 Proof.
-  destruct r as [o|]; cbn [rstep]; [|unfold do_reopen, recover;
-    repeat match goal with |- context [fold_left ?F ?L ?A] => destruct (fold_left F L A) as [[? ?] ?] || destruct (fold_left F L A) as [? ?] end; reflexivity].
+  destruct r as [o| |h]; cbn [rstep]; [|unfold do_reopen, recover;
+    repeat match goal with |- context [fold_left ?F ?L ?A] => destruct (fold_left F L A) as [[? ?] ?] || destruct (fold_left F L A) as [? ?] end; reflexivity|
+    unfold do_delks; destruct (alookup h (d_handles d)) as [id|]; [|reflexivity]; destruct (ks_of d id) as [ks|]; [|reflexivity];
+    cbn [fst]; destruct (blookup (k_name ks) (d_map d)); reflexivity].
   destruct o; cbn [wstep].
   - unfold do_ks. destruct (blookup name (d_map d)); reflexivity.
   - unfold write_one. destruct (ks_of d id) as [ks|]; [|reflexivity]. destruct (k_deleted ks); [reflexivity|]. destruct (d_poisoned d); reflexivity.
